@@ -590,11 +590,12 @@ def read_overlay(path, seen=None, trusted=False):
                 elif kw in ('prologue', 'loop', 'at', 'epilogue'):
                     sec = (kw, rest, [])
                     cur.sections.append(sec)
-                elif kw == 'subst':
+                elif kw in ('subst', 'subst?'):
                     m = re.match(r'"((?:[^"\\]|\\.)*)"\s*=>\s*"((?:[^"\\]|\\.)*)"', rest)
                     if not m:
                         raise Unsupported(f'{path}:{i + 1}: bad subst')
-                    cur.sections.append(('subst', (m.group(1).replace('\\"', '"'), m.group(2).replace('\\"', '"')), []))
+                    cur.sections.append(('subst' if kw == 'subst' else 'subst?',
+                                         (m.group(1).replace('\\"', '"'), m.group(2).replace('\\"', '"')), []))
                 elif kw == 'attr':
                     cur.sections.append(('attr', rest, []))
                 else:
@@ -856,10 +857,16 @@ class Weaver:
                         'where': where})
         wherecl = parts['where']
         for kind, arg, lines in d.sections:
-            if kind == 'subst':
+            if kind in ('subst', 'subst?'):
                 allt = generics + [T('punct', '\x00')] + params + [T('punct', '\x00')] + ret + [T('punct', '\x00')] + \
                     wherecl + [T('punct', '\x00')] + body
-                allt = apply_subst(allt, arg[0], arg[1], log, where)
+                try:
+                    allt = apply_subst(allt, arg[0], arg[1], log, where)
+                except AnchorLost:
+                    if kind == 'subst':
+                        raise
+                    # `subst?`: a redirection that only applies when the call is present (e.g. a std method that
+                    # may or may not be used by the current body)
                 segs, cur = [], []
                 for t in allt:
                     if t.text == '\x00':
